@@ -1,5 +1,6 @@
 (* E5/fmt: decide C15's predicates on what the implementation printed, with the Coq definitions *)
 open Model
+type string = Stdlib.String.t
 open Conv
 let run () =
   let n = ref 0 and bad = ref 0 and nontriv = ref 0 in
